@@ -605,3 +605,82 @@ Proof.
     destruct ((status =? MK_DECLARED) && (zlen winners <? 1)); cbn [negb andb]; [reflexivity|].
     destruct (forallb (fun o => 0 <=? o) winners); reflexivity.
 Qed.
+
+(* ---- x/subaccount/keeper/balance.go TopUp, generated over the state it reaches: does the owner have a subaccount, its summary and lock
+   records, the bank balances of the funding account and of the subaccount, the block time --------------------------------------------------- *)
+Definition subtop_state (ex : bool) (x : subacc) (sumex : bool) (cb sb now : Z) : S_subtop :=
+  {| S_subtop_Exists := ex; S_subtop_Summary := as_of x; S_subtop_SummaryExists := sumex; S_subtop_Locks := map glb_of (sa_locks x);
+     S_subtop_CreatorBal := cb; S_subtop_SubBal := sb; S_subtop_Now := now |}.
+
+Lemma existsb_glb (old : list (Z * Z)) k :
+  existsb (fun g => G_LockedBalance_UnlockTS g =? k) (map glb_of old) = existsb (fun o => fst o =? k) old.
+Proof. induction old as [|a l IH]; cbn [map existsb]; [reflexivity|]. rewrite IH. reflexivity. Qed.
+Lemma kupd_glb (acc : list (Z * Z)) l :
+  kupd (fun g => G_LockedBalance_UnlockTS g =? G_LockedBalance_UnlockTS (glb_of l)) (glb_of l) (map glb_of acc) =
+  map glb_of (upd (fun x => fst x =? fst l) l acc).
+Proof. induction acc as [|a r IH]; cbn [map kupd upd]; [reflexivity|]. cbn [glb_of G_LockedBalance_UnlockTS]. destruct (fst a =? fst l); cbn [map]; [reflexivity|]. f_equal. exact IH. Qed.
+Lemma set_locks_glb (new old : list (Z * Z)) :
+  fold_left (fun acc g => kupd (fun y => G_LockedBalance_UnlockTS y =? G_LockedBalance_UnlockTS g) g acc) (map glb_of new) (map glb_of old) =
+  map glb_of (set_locks old new).
+Proof.
+  unfold set_locks. revert old. induction new as [|l r IH]; intros old; cbn [map fold_left]; [reflexivity|].
+  rewrite kupd_glb. apply IH.
+Qed.
+
+(* = sub_topup after the validity of the lock list and the owner lookup: refusal of an unlock time before the block time or one that
+   already has a record, the deposited amount grows by the sum, the lock records are written (last write per unlock time wins), the sum
+   moves from the funding account to the subaccount (refused when the funding account holds less) *)
+Lemma gen_TopUp x locks cb sb now :
+  K_subtop_TopUp (subtop_state true x true cb sb now) (map glb_of locks) =
+  match sum_locks now locks with
+  | None => None
+  | Some tot =>
+      if existsb (fun l => existsb (fun o => fst o =? fst l) (sa_locks x)) locks then None
+      else if cb <? tot then None
+      else Some (subtop_state true (sub_with x (sa_dep x + tot) (sa_spent x) (sa_wd x) (sa_lost x) (set_locks (sa_locks x) locks)) true (cb - tot) (sb + tot) now)
+  end.
+Proof.
+  unfold K_subtop_TopUp. replace (S_subtop_Now (subtop_state true x true cb sb now)) with now by reflexivity.
+  rewrite gen_sumLockedBalance. destruct (sum_locks now locks) as [tot|]; [|reflexivity].
+  cbv zeta. replace (S_subtop_Exists (subtop_state true x true cb sb now)) with true by reflexivity.
+  replace (S_subtop_SummaryExists (subtop_state true x true cb sb now)) with true by reflexivity.
+  replace (S_subtop_Summary (subtop_state true x true cb sb now)) with (as_of x) by reflexivity. cbn [negb]. cbv iota beta.
+  match goal with |- context [kfold _ _ ?f] => set (F := f) end. unfold kfold.
+  set (st0 := subtop_state true x true cb sb now).
+  assert (Hstop : forall l s r, fold_left F l (s, r, true) = (s, r, true)).
+  { induction l as [|a l IH]; intros s r; cbn [fold_left]; [reflexivity|apply IH]. }
+  assert (Hrun : forall l, fold_left F (map glb_of l) (st0, None, false) =
+            if existsb (fun l0 => existsb (fun o => fst o =? fst l0) (sa_locks x)) l then (st0, Some None, true) else (st0, None, false)).
+  { induction l as [|a l IH]; cbn [map fold_left existsb]; [reflexivity|].
+    assert (HF : F (st0, None, false) (glb_of a) = if existsb (fun o => fst o =? fst a) (sa_locks x) then (st0, Some None, true) else (st0, None, false)).
+    { unfold F. cbv beta iota. replace (S_subtop_Locks st0) with (map glb_of (sa_locks x)) by reflexivity.
+      cbn [glb_of G_LockedBalance_UnlockTS]. rewrite existsb_glb. destruct (existsb (fun o => fst o =? fst a) (sa_locks x)); reflexivity. }
+    rewrite HF. destruct (existsb (fun o => fst o =? fst a) (sa_locks x)); cbn [orb]; [apply Hstop|exact IH]. }
+  rewrite Hrun. destruct (existsb (fun l0 => existsb (fun o => fst o =? fst l0) (sa_locks x)) locks); [reflexivity|].
+  cbv iota beta. subst st0. unfold subtop_state.
+  cbn [set_S_subtop_Summary set_S_subtop_Locks set_S_subtop_CreatorBal set_S_subtop_SubBal S_subtop_Exists S_subtop_Summary S_subtop_SummaryExists
+       S_subtop_Locks S_subtop_CreatorBal S_subtop_SubBal S_subtop_Now].
+  rewrite set_locks_glb. destruct (cb <? tot); reflexivity.
+Qed.
+
+Lemma lock_ok_sum_nonneg now locks tot : forallb (lock_ok now) locks = true -> sum_locks now locks = Some tot -> 0 <= tot.
+Proof.
+  unfold sum_locks. destruct (existsb (fun l => fst l <? now) locks); [discriminate|]. intros H E. injection E as <-.
+  induction locks as [|a l IH]; cbn [map zsum]; [lia|]. cbn [forallb] in H. apply andb_true_iff in H. destruct H as [Ha Hl].
+  unfold lock_ok in Ha. apply andb_true_iff in Ha. destruct Ha as [_ Ha]. apply negb_true_iff, Z.ltb_ge in Ha. specialize (IH Hl). lia.
+Qed.
+
+(* the model's sub_topup accepts exactly when the generated TopUp does on the state assembled from the chain state (gen_TopUp says that what
+   the generated function stores is the model's new subaccount record and balances) *)
+Lemma model_sub_topup s creator owner locks x :
+  forallb (lock_ok (c_now s)) locks = true -> sub_by_owner (c_subs s) owner = Some x ->
+  (sub_topup s creator owner locks = None <->
+   K_subtop_TopUp (subtop_state true x true (bget (c_bank s) creator) (bget (c_bank s) (sub_addr x)) (c_now s)) (map glb_of locks) = None).
+Proof.
+  intros HL E. unfold sub_topup. rewrite HL, E, gen_TopUp. cbn [negb].
+  destruct (sum_locks (c_now s) locks) as [tot|] eqn:ES; [|split; reflexivity].
+  pose proof (lock_ok_sum_nonneg _ _ _ HL ES) as Hn.
+  destruct (existsb (fun l => existsb (fun o => fst o =? fst l) (sa_locks x)) locks); [split; reflexivity|].
+  unfold pay. replace (tot <? 0) with false by (symmetry; apply Z.ltb_ge; exact Hn).
+  destruct (bget (c_bank s) creator <? tot); split; intros H; try reflexivity; discriminate.
+Qed.
